@@ -97,6 +97,11 @@ def eval_case(desc, ctx):
     ivars = {"pid": {"encoding": {"datatype": "i4"}, "attributes": {}}, **ivars}
     pvars = {"weight": {"encoding": {"datatype": "f8"}, "attributes": {}},
              "release_time": {"encoding": {"datatype": "f8"}, "attributes": {"units": "seconds since reference_time"}}}
+    if layout == "dense":
+        # a packed variable (short integers with a scale factor: Y holds whole numbers, 0.5 * 2k is exact) and a
+        # boolean state variable among the outputs: fill values before release and after death for these as well
+        ivars["Y"] = {"encoding": {"datatype": "i2"}, "attributes": {"scale_factor": 0.5}}
+        ivars["active"] = {"encoding": {"datatype": "i1"}, "attributes": {}}
     out = Output({"time": tk, "state": st, "grid": None}, d / "o.nc", p * DT + desc.get("pextra", 0), dict(ivars), pvars, layout=layout, numrec=numrec)
     rng = np.random.default_rng(desc["seed"])
     truth = {}  # pid -> (weight, release seconds)
@@ -189,17 +194,17 @@ def eval_case(desc, ctx):
                 ints_all.append(ints)
             else:
                 nc.set_auto_mask(True)
-                for v in ("X", "Y", "age"):
+                for v in ("X", "Y", "age", "active"):
                     A = nc.variables[v][:]
-                    j = VARS.index(v) - 1
+                    j = (VARS.index(v) - 1) if v != "active" else None
                     for k, r in enumerate(recs):
                         row = np.ma.masked_invalid(np.ma.atleast_1d(A[k])) if A.shape[1:] else np.ma.array([])
                         for q in range(len(row)):
                             present = q in r["rows"]
                             if present and (row.mask[q] if np.ma.is_masked(row) else False):
                                 problems.append(f"{f.name} {v}[{k},{q}] is fill but particle {q} is alive")
-                            elif present and float(row[q]) != r["rows"][q][j]:
-                                problems.append(f"{f.name} {v}[{k},{q}] = {row[q]}, particle's value {r['rows'][q][j]}")
+                            elif present and float(row[q]) != (1.0 if j is None else r["rows"][q][j]):
+                                problems.append(f"{f.name} {v}[{k},{q}] = {row[q]}, particle's value {1.0 if j is None else r['rows'][q][j]}")
                             elif not present and not (np.ma.is_masked(row) and row.mask[q]):
                                 problems.append(f"{f.name} {v}[{k},{q}] = {row[q]} but particle {q} is not alive at that record (fill value expected)")
                         for q in r["rows"]:
